@@ -201,7 +201,7 @@ def run(tier):
             texts, ctexts, rp, rc_ = res[f["run"]]
             V.violation(f"coloured:{m}:{variant}:{stream.shape(h)[:300]}",
                         f"output differs between plain and git-coloured input (colouring variant {variant}) at row {f['at']} in "
-                        f"mode {m} for [{stream.shape(h)[:200]}]", {"history": h, "mode": m, "run": rc_.to_json(), "failure": f})
+                        f"mode {m} for [{stream.shape(h)[:200]}]", {"history": h, "mode": m, "run": rc_.to_json(), "also": [rp.to_json()], "failure": f})
         else:
             sgr, cls, keep, mapped = mjobs[f["run"] - len(jobs)]
             V.violation(f"moved:{sgr}:{cls}:{keep}:{mapped}", f"{cls} line coloured ESC[{sgr}m by git is not shown in "
